@@ -251,7 +251,7 @@ def dev_admissible(obs, case, devs):
     ks = q["keys"]
     sel = q["sel"]
     lim = 1 if ("join_limit0_returns_one" in devs and q["lim"] == 0) else q["lim"]
-    window_first = "join_window_first" in devs
+    window_first = "join_window_first" in devs or "join_topk_not_sorted" in devs
     if window_first or (q["dist"] and q["src"] == "plain"):
         base = case["proj"]
     else:
